@@ -1,1 +1,99 @@
-(* placeholder, being written *)
+(* C11 — Mesh wire encoding is lossless for supported mesh data.
+   Statements only; every proof is `exact <lemma>`. Model: Codec/MeshCodec.v (mesh_to_bin /
+   bin_to_mesh over the bincode model Codec/Schema.v and the lz4 model Codec/Lz4.v). Source tie:
+   BSGen.MeshLayout is regenerated from /repo/src/networking/assets/mesh_serde.rs on every run; the
+   model is DEFINED over its tables (field list and wire types of MeshData, which part of the
+   Mesh feeds which field, which field is written where on decode, both topology tables), so
+   the theorems below are re-checked against what the source says now. *)
+From Coq Require Import List NArith.
+From BS Require Import Codec.Schema Codec.Lz4 Codec.CodecTypes Codec.MeshCodec Codec.MeshCodecProofs.
+From BSGen Require Import MeshLayout.
+Import ListNotations.
+Local Open Scope N_scope.
+
+(* ---- the code's declarative fragments are the ones the model was written for ---------- *)
+
+(* the two `match` blocks on the topology are inverse of each other, arm by arm, and the encoder
+   has an arm for each of the five topologies *)
+Theorem C11_source_topology_tables_inverse :
+  forallb (fun p => topology_eqb (num_to_topo (snd p)) (fst p)) topo_enc_table = true
+  /\ forallb (fun p => topo_to_num (snd p) =? fst p) topo_dec_table = true
+  /\ forallb (fun t => existsb (fun p => topology_eqb (fst p) t) topo_enc_table) all_topologies = true
+  /\ map fst topo_dec_table = [0; 1; 2; 3; 4].
+Proof. exact source_topology_tables_inverse. Qed.
+
+(* the wire layout of `struct MeshData` (field order and types) *)
+Theorem C11_source_layout :
+  meshdata_fields =
+  [(F_mesh_type, TInt 1);
+   (F_positions, TOpt (TSeq (TArr 3 (TInt 4)))); (F_normals, TOpt (TSeq (TArr 3 (TInt 4))));
+   (F_uvs0, TOpt (TSeq (TArr 2 (TInt 4)))); (F_uvs1, TOpt (TSeq (TArr 2 (TInt 4))));
+   (F_tangents, TOpt (TSeq (TArr 4 (TInt 4)))); (F_colors, TOpt (TSeq (TArr 4 (TInt 4))));
+   (F_joint_weights, TOpt (TSeq (TArr 4 (TInt 4)))); (F_joint_indices, TOpt (TSeq (TArr 4 (TInt 2))));
+   (F_indices32, TOpt (TSeq (TInt 4))); (F_indices16, TOpt (TSeq (TInt 2)));
+   (F_morph_targets, TOpt asset_id_ty); (F_morph_target_names, TOpt (TSeq TBytes))].
+Proof. exact source_layout. Qed.
+
+(* each attribute is matched with the vertex format Bevy fixes for it and lands in a field of
+   that element type *)
+Theorem C11_source_attribute_formats :
+  Forall (fun r => let '(f, a, k, w) := r in
+                   attr_shape a = (k, w)
+                   /\ assoc mfield_eqb f meshdata_fields = Some (TOpt (TSeq (TArr k (TInt w))))
+                   /\ field_source f = Some (SrcAttr a)) mesh_enc_shapes
+  /\ map (fun r => snd (fst (fst r))) mesh_enc_shapes
+     = [A_POSITION; A_TANGENT; A_NORMAL; A_UV_0; A_UV_1; A_COLOR; A_JOINT_WEIGHT; A_JOINT_INDEX].
+Proof. exact source_attribute_formats. Qed.
+
+(* the decoder writes every field to the part of the mesh the encoder read it from *)
+Theorem C11_source_decode_writes_what_encode_read :
+  mesh_dec_targets = mesh_enc_sources
+  /\ map snd mesh_enc_sources
+     = [SrcTopology; SrcAttr A_POSITION; SrcAttr A_NORMAL; SrcAttr A_UV_0; SrcAttr A_UV_1;
+        SrcAttr A_TANGENT; SrcAttr A_COLOR; SrcAttr A_JOINT_WEIGHT; SrcAttr A_JOINT_INDEX;
+        SrcIndices32; SrcIndices16; SrcMorph; SrcNames]
+  /\ mesh_fallback_topology = TriangleList /\ topo_dec_default = TriangleList.
+Proof. exact source_decode_writes_what_encode_read. Qed.
+
+(* ---- the property ------------------------------------------------------------------------ *)
+
+(* For every supported mesh -- any of the five topologies, any subset of the eight attributes
+   with any number of vertices (zero included, no bound) and any f32 bit patterns, no / 16-bit /
+   32-bit indices, no or a weak morph-target handle, any morph-target names -- encoding succeeds
+   and decoding the bytes returns exactly that mesh: same topology, bit-identical attribute
+   values, same indices with the same width, same names and handle, absent attributes absent.
+   `supported m` = every number fits its Rust type, every vertex has the arity of its format,
+   and the morph-target handle is not a strong handle. Whatever lz4 does with the data
+   (compressible or not) is covered: the compressor model is byte exact and its round trip is
+   proved for all inputs. *)
+Theorem C11_mesh_lossless :
+  forall m, supported m -> exists bs, mesh_to_bin m = Some bs /\ bin_to_mesh bs = Ok m.
+Proof. exact MeshCodecProofs.C11_mesh_lossless. Qed.
+
+(* outside the supported set: a strong morph-target handle is dropped, everything else survives *)
+Theorem C11_strong_handle_dropped :
+  forall m, wf_mesh m -> morph m = MStrong ->
+  exists bs, mesh_to_bin m = Some bs
+    /\ bin_to_mesh bs = Ok (mkMesh (topo m) (positions m) (normals m) (uvs0 m) (uvs1 m)
+                                   (tangents m) (colors m) (joint_weights m) (joint_indices m)
+                                   (indices m) MNone (morph_names m)).
+Proof. exact MeshCodecProofs.C11_strong_handle_dropped. Qed.
+
+(* the hypotheses are met by a mesh with special floats, an empty attribute, u16 indices, a weak
+   handle and non-ASCII / empty names *)
+Theorem C11_supported_is_inhabited : supported ex_mesh /\ positions ex_mesh <> None.
+Proof. exact ex_mesh_nontrivial. Qed.
+
+(* the functions the correspondence check runs are the ones the theorems are about *)
+Theorem C11_executed_model_is_specified_model :
+  (forall m, mesh_to_bin_fast m = mesh_to_bin m) /\ (forall bs, bin_to_mesh_fast bs = bin_to_mesh bs).
+Proof. exact (conj mesh_to_bin_fast_eq bin_to_mesh_fast_eq). Qed.
+
+Print Assumptions C11_source_topology_tables_inverse.
+Print Assumptions C11_source_layout.
+Print Assumptions C11_source_attribute_formats.
+Print Assumptions C11_source_decode_writes_what_encode_read.
+Print Assumptions C11_mesh_lossless.
+Print Assumptions C11_strong_handle_dropped.
+Print Assumptions C11_supported_is_inhabited.
+Print Assumptions C11_executed_model_is_specified_model.
